@@ -458,6 +458,13 @@ func (s *MemStore) Voucher(ctx context.Context, g protocol.GUID) (*fdo.Voucher, 
 	return &ov, nil
 }
 
+// PutVoucherAs files a voucher under an arbitrary GUID (an owner that answers for a GUID with some other voucher).
+func (s *MemStore) PutVoucherAs(g protocol.GUID, b []byte) {
+	s.mu.Lock()
+	s.vouchers[g] = b
+	s.mu.Unlock()
+}
+
 // VoucherBytes returns the stored CBOR of a voucher.
 func (s *MemStore) VoucherBytes(g protocol.GUID) ([]byte, bool) {
 	s.mu.Lock()
